@@ -217,6 +217,10 @@ def gen(
     rnd.shuffle(edges) if feats["permute"] else None
     for e in edges:
         e["ids"] = [ids[i] for i in e.pop("ix")]
+        # the same information values in different memory layouts (C order, Fortran order, strided view, read-only)
+        e["layout"] = rnd.choice(["C", "C", "C", "F", "strided", "readonly"])
+        # ids may arrive as numpy integers (they hash and compare like Python ints)
+        e["np_ids"] = rnd.random() < 0.15
     if base == "se3" and "quat-signs" in features:
         # q and -q are the same rotation: store a random representative everywhere (measurements, offsets, vertices)
         def flip(pd):
@@ -277,17 +281,24 @@ def _layout(info, how):
     return info
 
 
+def _ids(e):
+    ids = list(e["ids"])
+    if e.get("np_ids") and all(-(2**62) < i < 2**62 for i in ids):
+        return [np.int64(i) for i in ids]
+    return ids
+
+
 def build_edge(e):
     info = _layout(np.array(e["info"], dtype=np.float64), e.get("layout", "C"))
     t = e["t"]
     if t == "odo":
-        return gs.EdgeOdometry(list(e["ids"]), info, gs.mk_pose(e["z"]))
+        return gs.EdgeOdometry(_ids(e), info, gs.mk_pose(e["z"]))
     if t == "lm":
-        return gs.EdgeLandmark(list(e["ids"]), info, gs.mk_pose(e["z"]), gs.mk_pose(e["off"]), offset_id=e.get("off_id", 0))
+        return gs.EdgeLandmark(_ids(e), info, gs.mk_pose(e["z"]), gs.mk_pose(e["off"]), offset_id=e.get("off_id", 0))
     cls = CE.CLASSES[(t, e.get("fl") or "ana")]
     z = e["z"]
     est = gs.mk_pose(z) if isinstance(z, dict) else (np.array(z, dtype=np.float64) if len(z) > 1 or t in ("mid", "eqstep") else float(z[0]))
-    return cls(list(e["ids"]), info, est)
+    return cls(_ids(e), info, est)
 
 
 def build(case):
